@@ -2188,7 +2188,7 @@ impl fmt::Display for ForClause {
                 write!(f, "FOR JSON ")?;
                 write!(f, "{}", for_json)?;
                 if let Some(root) = root {
-                    write!(f, ", ROOT('{}')", root)?;
+                    write!(f, ", ROOT('{}')", value::escape_single_quote_string(root))?;
                 }
                 if *include_null_values {
                     write!(f, ", INCLUDE_NULL_VALUES")?;
@@ -2214,7 +2214,7 @@ impl fmt::Display for ForClause {
                     write!(f, ", TYPE")?;
                 }
                 if let Some(root) = root {
-                    write!(f, ", ROOT('{}')", root)?;
+                    write!(f, ", ROOT('{}')", value::escape_single_quote_string(root))?;
                 }
                 if *elements {
                     write!(f, ", ELEMENTS")?;
